@@ -8,7 +8,8 @@ From SV Require Import Model.WireIpv4 Proofs.WireIpv4Proofs.
 From SV Require Import Model.WireIpv6 Proofs.WireIpv6Proofs.
 From SV Require Import Model.WireIcmpv4 Proofs.WireIcmpv4Proofs.
 From SV Require Import Model.WireIcmpv6 Proofs.WireIcmpv6Proofs.
-From SV Require Import Model.WireTcp Proofs.WireTcpProofs Proofs.WireTcpEmitProofs Proofs.WireTcpParseProofs.
+From SV Require Import Model.WireTcp Proofs.WireTcpProofs Proofs.WireTcpEmitProofs.
+From SV Require Import Proofs.WireTcpParseProofs Proofs.WireTcpReparseProofs.
 From SV Require Import Props.C06.
 
 Check (C06_eth_emit_no_panic : forall r b,
@@ -176,3 +177,10 @@ Check (C06_tcp_roundtrip : forall sum_ok sum_fill tx rx r b,
   tcp_cksum_link sum_ok sum_fill -> tcp_wf r = true -> (rx = true -> tx = true) ->
   blen b = tcp_buffer_len r ->
   exists bs, tcp_emit sum_fill tx r b = Ok bs /\ blen bs = tcp_buffer_len r /\ tcp_parse sum_ok rx bs = Ok r).
+
+Check (C06_tcp_reparse : forall sum_ok sum_fill tx rx bs r,
+  tcp_cksum_link sum_ok sum_fill -> bytes_ok bs = true -> (rx = true -> tx = true) ->
+  tcp_parse sum_ok rx bs = Ok r -> tcp_sack_ok r = true ->
+  tcp_wf r = true /\
+  forall b, blen b = tcp_buffer_len r ->
+    exists bs', tcp_emit sum_fill tx r b = Ok bs' /\ tcp_parse sum_ok rx bs' = Ok r).
